@@ -96,7 +96,17 @@ def build(rec: Dict[str, Any], seed: int, axis_aligned: bool = False) -> Built:
       sz = _v(s[:2])
     else:  # box, ellipsoid
       sz = _v(s)
-    return f'<geom name="g{b}" type="{g}" size="{sz}" pos="{_v(pos)}" quat="{_v(q)}" density="{_v(dens)}"{col}{extra}/>'
+    second = ""
+    if F("fluid_ellipsoid") and b % 2 == 1:
+      # a second, non-colliding geom with ellipsoid fluid interaction away from the body frame: the body's fluid force is a sum over geoms, each acting at
+      # its own position (own stream of random numbers, so that everything else in the model stays as it was)
+      r2 = rng_for(c, seed, f"fluidgeom{b}")
+      if r2.random() < 0.6:
+        s2 = r2.uniform(0.03, 0.08, size=3)
+        q2 = np.array([1.0, 0, 0, 0]) if axis_aligned else _unit(r2, 4)
+        second = (f'<geom name="g{b}x" type="ellipsoid" size="{_v(s2)}" pos="{_v(_unit(r2) * r2.uniform(0.1, 0.25))}" quat="{_v(q2)}" density="{_v(r2.uniform(300, 2000))}" '
+                  f'contype="0" conaffinity="0" fluidshape="ellipsoid"' + (f' fluidcoef="{_v(r2.uniform(0.3, 1.5, size=5))}"' if r2.random() < 0.5 else "") + "/>")
+    return f'<geom name="g{b}" type="{g}" size="{sz}" pos="{_v(pos)}" quat="{_v(q)}" density="{_v(dens)}"{col}{extra}/>' + second
 
   def joint_xml(b):
     xs = []
